@@ -348,9 +348,8 @@ func batch(r *vh.Run, i int) {
 			// a repository name that would live inside another repository's blob store
 			hexOther := strings.Repeat("ab", 32)
 			for dd := range e.have[names[rng.Intn(len(names))]] {
-				if strings.HasPrefix(dd, "sha256:") {
+				if strings.HasPrefix(dd, "sha256:") && (hexOther == strings.Repeat("ab", 32) || dd[7:] < hexOther) {
 					hexOther = dd[7:]
-					break
 				}
 			}
 			inside := rp + "/blobs/sha256/" + hexOther
@@ -366,8 +365,9 @@ func batch(r *vh.Run, i int) {
 			for _, evil := range []string{"sha256:" + up + victim + "/blobs/sha256/" + hexOther, "sha256:" + up + "../secret/blobs/sha256/" + d[7:], "sha256:" + up + "../canary", "sha256:/etc/hostname", "sha256:..", "sha512:" + up + victim + "/index.json"} {
 				cfgOK := ""
 				for dd := range e.have[rp] {
-					cfgOK = dd
-					break
+					if cfgOK == "" || dd < cfgOK {
+						cfgOK = dd
+					}
 				}
 				if cfgOK == "" {
 					cfgOK = evil
